@@ -42,6 +42,32 @@ def _replay_vars(a, c):
         a.candidates.append(c)
 
 
+def replay_variable_keys(a):
+    """`M.%keys.v` with keys from a literal list / a list in the data / one string per result, one key missing: the unresolved
+    entry must name the MAP (/M) as the value reached"""
+    import json as _json
+    exe = a.cli()
+    if not exe:
+        return {"reproduced": False, "note": "native build failed"}
+    data = '{"M": {"a": {"v": 1}, "b": {"v": 2}},\n "D": ["a", "gone"], "E": [ {"k": "b"}, {"k": "lost"} ]}\n'
+    rules = ("let names = [\"b\", \"nope\"]\nlet dl = D\nlet each = E[*].k\nrule t {\n  M.%names.v exists\n}\nrule u {\n  M.%dl.v exists\n}\n"
+             "rule w {\n  M.%each.v exists\n}\n")
+    rc, rep, err = a.run_structured(exe, rules, [data])
+    if not (rep and isinstance(rep, list) and rep):
+        return {"reproduced": False, "note": f"no report (exit {rc})"}
+    out = []
+    for x in rep[0].get("not_compliant", []):
+        if "Rule" not in x:
+            continue
+        paths = re.findall(r'"traversed_to": \{"path": "([^"]*)"', _json.dumps(x))
+        if not paths or any(p_ != "/M" for p_ in paths):
+            out.append({"rule": x["Rule"]["name"], "expected_reached": "/M", "reported_reached": paths})
+    names = {x["Rule"]["name"] for x in rep[0].get("not_compliant", []) if "Rule" in x}
+    if names != {"t", "u", "w"}:
+        out.append({"problem": "expected t, u, w to FAIL on their missing key", "failing": sorted(names)})
+    return {"reproduced": bool(out), "mismatches": out[:3], "rules_file": rules, "data": data}
+
+
 def replay_literal_variables(a):
     """a literal written in place and the same literal bound with `let` (file, rule and block scope) and used as a bare
     %v must give the same status (the reference is the in-place form)"""
@@ -235,7 +261,7 @@ def q_filter_delegate(a):
 # the dispatcher itself, one query-part kind x one kind of current value at a time (directed execution: the two
 # discriminants are fixed before the paths are enumerated, everything else stays symbolic)
 # --------------------------------------------------------------------------------------------------
-def _directed(a, part_idx, cur_idx, extra_models=None, unroll=1, is_var=False):
+def _directed(a, part_idx, cur_idx, extra_models=None, unroll=1, is_var=False, log=("extend", "push")):
     holder = {}
 
     def prep(ex):
@@ -255,7 +281,7 @@ def _directed(a, part_idx, cur_idx, extra_models=None, unroll=1, is_var=False):
                    "start_record": mirexec.m_result_unit, "end_record": mirexec.m_result_unit,
                    "check_and_delegate": lambda ex, av: ex.opq(), "call": m_result_opq})
     models.update(extra_models or {})
-    ex = a.exec(QCTX + REC, models, log=("extend", "push"), unroll=unroll, max_paths=60000, prep=prep)
+    ex = a.exec(QCTX + REC, models, log=log, unroll=unroll, max_paths=60000, prep=prep)
     return ex, holder
 
 
@@ -460,6 +486,31 @@ def q_dispatch(a):
            f"`[ filter ]` on a list of <= 2 elements ({nel} element evaluations): the filter's clauses are evaluated once per element, "
            "against that element; the traversal continues (next position, that element) exactly for the elements whose status is PASS - "
            "FAIL and SKIP select nothing; every element is visited; an evaluation error is an error of the query")
+
+    # ---- `.%var` on a map (keys taken from a variable): whatever is reported as unresolved is reported AT THE MAP -----------
+    ex, h = _directed(a, QP.index("Key"), MAP, is_var=True, unroll=1, log=("*",),
+                      extra_models={"parse": lambda ex, av: ex.fresh_enum("Result", 2, "pari", {"Ok": ex.opq(), "Err": ex.opq()}),
+                                    "variable": mirexec.m_option, "next": mirexec.m_iter_next, "into_iter": mirexec.m_new_iter, "iter": mirexec.m_new_iter})
+    bad, nun = [], 0
+    for p in ex.paths:
+        if p.outcome != "return":
+            continue
+        probs = []
+        for e in p.events:
+            if e[0] == "call" and re.search(r"unresolved|missing", e[1]) and e[1] not in ("to_unresolved_value",) and e[2]:
+                nun += 1
+                if not same(e[2][0], h["cur"]):
+                    probs.append(f"{e[1]} is given something other than the map being searched as the value reached")
+        bad.append(f"(and {pc_term(p.pc)} {in_range(ex, h)})" if probs else "false")
+    def finish_vk(name, ex, bad, describe):
+        c = a.discharge("query/dispatch/" + name, ex, bad, describe)
+        if c:
+            c["replay"] = replay_variable_keys(a)
+            c["reproduced"] = c["replay"].get("reproduced", False)
+            a.candidates.append(c)
+    finish_vk("key-variable/map/unresolved-at-the-map", ex, bad,
+           f"`.%var` on a map ({nun} unresolved results over all paths, variable resolving to <= 1 entries): every 'key not found' result "
+           "records THE MAP that was searched as the value reached (never the key value or a list of keys)")
 
     # ---- `.n` on a list (a key that is a number): the same lookup as `[n]` --------------------------------------------------
     ex, h = _directed(a, QP.index("Key"), LIST, extra_models={"parse": lambda ex, av: ex.fresh_enum("Result", 2, "pari", {"Ok": ex.fresh_int("i32", "keyidx"), "Err": ex.opq()})})
@@ -888,4 +939,4 @@ def replay_queries(a):
 
 SITES = {"C01": [q_accumulate, q_accumulate_map, q_retrieve_index, q_map_resolved, q_filter_delegate, q_dispatch, q_variable_head, q_unresolved_value],
          "C08": [q_dispatch],
-         "C15": [q_variable_head], "C10": [q_unresolved_value]}
+         "C15": [q_variable_head], "C10": [q_unresolved_value, q_dispatch]}
